@@ -381,6 +381,11 @@ def r04_7(chk, cr):
         # property names that decide the match: in the dominating guards and in the stored value
         names = set()
         terms = [c for c, pol in e.guards if pol] + [e.value]
+        # the matched molecule may first be bound to a variable (parent = asym_mol under the match test) and used after the search loop
+        carried = {a[1] for a in find_atoms(e.value, lambda a: a[0] in ("after", "lc", "maybe", "tryphi") and isinstance(a[1], str))}
+        for e2 in ev.events:
+            if e2.kind == "assign" and e2.name in carried and e2.loops:
+                terms += [c for c, pol in e2.guards if pol]
         for t in terms:
             for a in find_atoms(t, lambda a: a[0] == "sub" and a[1].key().endswith(".properties") and len(a[2]) == 1):
                 sv = a[2][0].as_atom()
